@@ -143,7 +143,7 @@ def run(ctx):
         for j, (res, sarif_doc) in zip(cli_jobs, results):
             k, p, req, offered, sources, level, allow, sarif, verbose, jobno = j
             stats["cli runs"] += 1
-            exp = [r for r in offered if rl.spec_keep(r, rl.LEVELS[level], allow)]
+            exp = [r for r in offered if rl.spec_keep(r, rl.LEVELS[level], allow, req["inputs"])]
             word = {"info": "note", "warning": "warning", "error": "error"}
             exp_diag = collections.Counter((word[r["level"]], r["id"] if verbose else None, r["message"]) for r in exp)
             got_diag = collections.Counter(res["diags"])
@@ -168,7 +168,9 @@ def run(ctx):
                             for l in r_.get("locations", []):
                                 pl = l["physicalLocation"]
                                 rg = pl["region"]
-                                locs.append((os.path.basename(pl["artifactLocation"]["uri"]), rg["startLine"], rg["startColumn"], rg["endLine"], rg["endColumn"]))
+                                # the URI must decode (percent-encoding) to the path of the file that was read
+                                import urllib.parse
+                                locs.append((os.path.basename(urllib.parse.unquote(pl["artifactLocation"]["uri"])), rg["startLine"], rg["startColumn"], rg["endLine"], rg["endColumn"]))
                             got_s[(r_.get("ruleId"), r_.get("level"), r_["message"]["text"], tuple(sorted(locs)))] += 1
                     if got_s != exp_s:
                         problems.append("SARIF results differ from displayed findings: extra %s missing %s" % (list((got_s - exp_s).items())[:3], list((exp_s - got_s).items())[:3]))
